@@ -360,8 +360,10 @@ Proof.
     intros ok s2 Hn2; mrun; mfin; jdone.
   - fstep. fstep. fstep. destruct a2 as [first|]; [|mfin; jdone]. mrun.
     destruct (negb first && (p_nak_counter (d_p s'2) + 1 =? r_nak_limit a)).
-    + eapply post_bind; [apply declare_fault_safe; jdone | intros; assumption | intros; mfin; assumption].
-    + flast.
+    + (* F22 repair: with the handler IGNORE the call continues into the re-issue branch *)
+      mrun. eapply post_bind; [apply declare_fault_Jp; jdone | intros s3 [Hi| ->]; jdone |].
+      intros fh s3 [Hn3 _]. mrun. destruct (negb (fh =? FH_IGNORE)); [mfin; jdone | flast].
+    + mrun. flast.
 Qed.
 
 Lemma start_deferred_spec : forall s, NI s -> post (fun _ => J) J (start_deferred_lost_segment_handling s).
@@ -857,11 +859,18 @@ Lemma sf_handle_eof_sent_false : SF (handle_eof_sent false).
 Proof. unfold handle_eof_sent. apply minv_bind; [minv|]. intro ac. destruct ac; [minv|]. cbv iota. minv. Qed.
 #[local] Hint Resolve sf_handle_eof_sent_false : minv.
 
+(* moved up: the cancelled unacknowledged transaction ends through notice_of_completion_s (F21 repair) *)
+Lemma notice_of_completion_s_spec : forall s, NIs s -> post (fun _ => K) K0 (notice_of_completion_s s).
+Proof.
+  intros s H. unfold notice_of_completion_s. srun. sfstep. sfin. kdone.
+Qed.
+
 Lemma handle_eof_sent_spec : forall b s, NIs s -> post (fun _ => K) K0 (handle_eof_sent b s).
 Proof.
   intros b s H. destruct b; [|sflast]. unfold handle_eof_sent. srun.
   destruct (if s_state s =? ST_IDLE then false else sc_mode (q_conf (s_p s)) =? ACKED); [sflast|].
-  sfin. kdone.
+  srun. destruct (q_cond_eof (s_p s)) as [c|]; [|sfin; kdone].
+  srun. apply notice_of_completion_s_spec. nis.
 Qed.
 
 Lemma notice_of_cancellation_s_spec : forall c s, NIs s -> post (fun _ => K) K0 (notice_of_cancellation_s c s).
@@ -901,6 +910,7 @@ Proof.
   intros pkt s H. unfold handle_waiting_for_ack. sfstep. destruct a; [sfin; kdone|].
   destruct pkt as [[ | | | | | | | ]|]; try (apply handle_positive_ack_procedures_s_spec; assumption).
   - sfin. kdone.
+  - (* Finished PDU: only the step changes (F30 repair) *) sflast.
   - sflast.
 Qed.
 
@@ -910,11 +920,6 @@ Proof.
   destruct pkt as [[ | | | | | | | ]|]; try sflast; srun;
     (destruct (q_check_timer (s_p s')) as [tm|]; [|sfin; kdone]);
     (destruct (timed_out (e_now (s_env s')) tm); [rewrite when_true; apply declare_fault_s_spec; nis | sfin; kdone]).
-Qed.
-
-Lemma notice_of_completion_s_spec : forall s, NIs s -> post (fun _ => K) K0 (notice_of_completion_s s).
-Proof.
-  intros s H. unfold notice_of_completion_s. srun. sfstep. sfin. kdone.
 Qed.
 
 Lemma stage_s {B} V (m : SM unit) (rest : SM B) (Q : B -> src -> Prop) s :
